@@ -300,6 +300,11 @@ def selections(P, n_dim, max_len):
     return out
 
 
+# samples are terms over the RNG stub's variables: a counter-example of a
+# sampling obligation is confirmed on those terms (nothing to run on floats)
+SAMPLES = {'terms_labels': r'^sample\['}
+
+
 def jobs(tier):
     out = []
     q = tier == 'quick'
@@ -310,7 +315,7 @@ def jobs(tier):
                 for n_ids in ([2] if q else [1, 2, 3]):
                     base = dict(kind=kind, n_dim=n_dim, n_cov=n_cov,
                                 n_ids=n_ids)
-                    out.append(('cov', 'case_cov', dict(base), {}))
+                    out.append(('cov', 'case_cov', dict(base), SAMPLES))
                     if n_cov == 1:
                         out.append(('cov', 'case_cov',
                                     dict(base, zero='beta', sample=False), {}))
